@@ -368,6 +368,143 @@ def file_cases(tb, rnd, verdicts):
     return cases, hist
 
 
+# ------------------------------------------------------------------ the history leg
+
+def hist_case_line(ops, forest):
+    """parse, then carry out the operations `ops` (see harness/go/c03.go, asthist) and dump the tree again"""
+    text, pos = render(forest)
+    return "asthist %s %s %s" % (ops or "-", lib.hexs(text.encode()), " ".join(encode(forest, pos)))
+
+
+def _words(alphabet, n):
+    if n == 0:
+        return [""]
+    return [w + a for w in _words(alphabet, n - 1) for a in alphabet]
+
+
+def _perms(xs):
+    if len(xs) <= 1:
+        return [list(xs)]
+    return [[x] + p for i, x in enumerate(xs) for p in _perms(xs[:i] + xs[i + 1:])]
+
+
+EXT_KW = {"h": "r:hit", "m": "r:miss", "g": "r:hit2", "u": "nowhere:hit"}
+OC_KW = {"n": "oc-ext:note", "p": "oc-ext:posix-pattern", "q": "m:own", "o": "oc-ext:other"}
+HIST_OPS = "PGEeCMXN"
+
+
+def history_cases(tb, rnd, accepted):
+    """the tree is built once; what happens to the module set afterwards must leave it the mirror it was.
+    accepted: forests of the first phase that the model builds"""
+    cases = []
+    hist = dict(hist_ext_patterns=0, hist_posix_pattern=0, hist_sibling_order=0, hist_identity_order=0,
+                hist_from_sweep=0)
+    paths = tb.paths()
+    # (1) extension lists: every struct of the table carrying every short word over {matching, not matching}
+    # extension statements (the module's own prefix r resolves everywhere), asked for each (module, identifier)
+    # its statements resolve to -- before / after Process, through the node and through its entry
+    short = [w for n in range(0, 4) for w in _words("hm", n)]
+    longer = [w for n in (4, 5) for w in _words("hmg", n)]
+    k = 0
+    for (ty, kw), chain in sorted(paths.items()):
+        if not any(f["kind"] == "FExt" for f in tb.structs[ty]):
+            continue
+        if kw == "belongs-to":
+            chain = ["submodule", "belongs-to"]      # (the table reaches it through module first, where it is refused)
+        req = tb.required_keys(ty, kw)
+        base = [tb.minimal(x, "r") for x in req]
+        kids = [f["key"] for f in tb.children(ty) if f["key"] not in req and not f["reqkinds"]]
+        words = short + rnd.sample(longer, 3) + ["mhu", "umh", "mu"]
+        for w in words:
+            exts = [(EXT_KW[c], "%s%d" % (c, i), []) for i, c in enumerate(w)]
+            subs = base + exts
+            if k % 4 == 1 and kids and exts:
+                # ordinary substatements between the extensions
+                mid = tb.minimal(kids[k % len(kids)], "k")
+                subs = exts[:1] + base + [mid] + exts[1:]
+            elif k % 4 == 2:
+                subs = exts + base
+            ops = ["M", "M", "PM", "MP", "NM", "eM", "X", "MCM"][k % 8]
+            cases.append(hist_case_line(ops, [tb.wrap(chain, (kw, "n", subs))]))
+            k += 1
+            hist["hist_ext_patterns"] += 1
+    # (2) the implicit caller: Process resolves every type and collects its openconfig-extensions:posix-pattern
+    ns, pf = tb.minimal("namespace", "r"), ("prefix", "m", [])
+    oc = ("module", "openconfig-extensions", [ns, ("prefix", "oc-ext", []),
+          ("extension", "posix-pattern", [("argument", "pattern", [])]),
+          ("extension", "note", [("argument", "text", [])]), ("extension", "other", [])])
+    imp = ("import", "openconfig-extensions", [("prefix", "oc-ext", [])])
+    own = ("extension", "own", [])
+    words = [w for n in range(0, 4) for w in _words("np", n)] + rnd.sample(_words("npq", 4), 12) + \
+        rnd.sample(_words("npqo", 5), 8)
+    carriers = ["leaf", "leaf-list", "typedef", "union", "container"]
+    k = 0
+    for w in words:
+        for car in carriers:
+            exts = [(OC_KW[c], "^%s%d+$" % (c, i), []) for i, c in enumerate(w)]
+            ty = ("type", "string", exts[:1] + [("pattern", "a+", [])] + exts[1:] if k % 3 == 0 else exts)
+            if car == "leaf":
+                body = [("leaf", "l", [ty] + exts)]
+            elif car == "leaf-list":
+                body = [("leaf-list", "l", exts + [ty])]
+            elif car == "typedef":
+                body = [("typedef", "t", [ty]), ("leaf", "l", [("type", "t", exts)])]
+            elif car == "union":
+                body = [("leaf", "l", [("type", "union", exts + [ty, ("type", "int8", exts)])])]
+            else:
+                body = [("container", "c", exts + [("leaf", "l", [ty]), ("list", "k", exts + [("key", "l", []),
+                        ("leaf", "l", [ty])])])]
+            m = ("module", "m", [ns, pf, imp, own] + body)
+            forest = [oc, m] if k % 2 == 0 else [m, oc]
+            ops = ["P", "P", "G", "PP", "PCP", "E", "PM", "MP", "PX"][k % 9]
+            cases.append(hist_case_line(ops, forest))
+            k += 1
+            hist["hist_posix_pattern"] += 1
+    # (3) source order among same-keyword siblings whose NAMES are not in ascending order: every (struct,
+    # repeated field) of the table, then converted / processed / looked up
+    k = 0
+    for (ty, kw), chain in sorted(paths.items()):
+        req = tb.required_keys(ty, kw)
+        for f in tb.children(ty):
+            if f["kind"] != "FMulti":
+                continue
+            c = f["key"]
+            base = [tb.minimal(x, "r") for x in req if x != c]
+            for pat in (["c", "b", "a"], ["b", "c", "a", "a"]):
+                subs = [tb.minimal(c, nm) for nm in pat]
+                ops = ["P", "E", "G", "e", "PG", "EE", "eP", "ECE"][k % 8]
+                cases.append(hist_case_line(ops, [tb.wrap(chain, (kw, "n", base + subs))]))
+                k += 1
+                hist["hist_sibling_order"] += 1
+    # (4) identities (the only statements besides typedefs that the conversion files by name): 0..4 of them in
+    # every order, with and without bases, equal names, in modules and submodules, identityref users
+    names = ["transport", "tcp", "udp", "sctp"]
+    orders = [[]] + [p for n in (1, 2, 3) for p in _perms(names[:n])] + rnd.sample(_perms(names), 10) + \
+        [["b", "a", "b"], ["b", "b", "a"], ["z", "y", "x", "w", "v"]]
+    k = 0
+    for order in orders:
+        for top in ("module", "submodule"):
+            reqs = [tb.minimal(x, "r") for x in tb.required_keys(tb.struct_for(top), top)]
+            for based in (False, True):
+                ids = []
+                for nm in order:
+                    b = [("base", order[0] if k % 2 else "r:" + order[0], [])] if based and nm != order[0] else []
+                    ids.append(("identity", nm, b))
+                user = [("leaf", "proto", [("type", "identityref", [("base", order[0], [])])])] if order and based else []
+                body = ids + user if k % 3 else user + ids[:1] + [("typedef", "zz", [("type", "string", [])])] + ids[1:]
+                ops = ["P", "E", "G" if top == "module" else "E", "PP", "ECE", "e", "PCG", "N"][k % 8]
+                cases.append(hist_case_line(ops, [(top, "m", reqs + body)]))
+                k += 1
+                hist["hist_identity_order"] += 1
+    # (5) anything else the first phase built: a random history over a sample
+    sample = rnd.sample(accepted, min(400, len(accepted)))
+    for f in sample:
+        ops = "".join(rnd.choice(HIST_OPS) for _ in range(rnd.choice([1, 2, 2, 3, 4])))
+        cases.append(hist_case_line(ops, f))
+        hist["hist_from_sweep"] += 1
+    return cases, hist
+
+
 def bare_extensions(tb):
     """a module that defines `extension NAME;` does not make NAME a keyword: the bare (unprefixed) NAME is an
     unknown keyword wherever the table does not know it -- whether the definition stands before or after the
@@ -586,6 +723,13 @@ def run(res, tier, seed, proof):
                           dict(kind="correspondence", case=c, impl=g, model="(see replay)"))
             break
     mism += fmism
+    # third phase, the history leg: the tree that was built stays the mirror whatever is done with the set later
+    accepted = [f for f, rej in verdicts if not rej and size(f) <= 400]
+    hcases, h4 = history_cases(tb, rnd, accepted)
+    hist.update(h4)
+    hgo, hml, hmism = lib.diff_cases(res, hcases, canon=canon, corr_name="model-vs-implementation (history leg)")
+    mism += hmism
+    hist["hist_built"] = sum(1 for g in hgo if g.startswith("ok"))
     ok = sum(1 for g in go if g.startswith("ok"))
     err = sum(1 for g in go if g.startswith("err"))
     kinds = {}
@@ -607,7 +751,8 @@ def run(res, tier, seed, proof):
                      {c for c, g in zip(cases, go) if g.startswith("err")})
     mid = len(cases) // 2
     cov = dict(
-        evaluations=len(cases) + len(fcases), distinct_nontrivial=nontrivial + len(set(fcases)),
+        evaluations=len(cases) + len(fcases) + len(hcases),
+        distinct_nontrivial=nontrivial + len(set(fcases)) + len(set(hcases)),
         rule="per-row sweep of the generated table (every struct reachable from module/submodule x every child "
              "field at multiplicity 1 and 2 in two positions; every required field omitted; pseudo keywords "
              "Name/Statement/Parent/Ext, unknown, prefixed and multi-colon keywords, with and without argument; "
@@ -623,20 +768,35 @@ def run(res, tier, seed, proof):
              "faulty and good texts written to a file and read with Modules.Read twice, then by module name "
              "through the search path, then once more after the file was corrected (or broken) on disk -- a "
              "rejected source must be rejected every time at the same position, a Read without error must show "
-             "the mirrored module in the set",
+             "the mirrored module in the set.  History leg: after Parse the set is processed / converted / queried "
+             "(Process, GetModule, ToEntry on modules and on every node, ClearEntryCache, MatchingExtensions and "
+             "MatchingEntryExtensions for every (module, identifier) a node's extensions resolve to, the read-only "
+             "node helpers) and the tree is dumped after every step: it must stay the dump of the model's tree.  "
+             "Families: every struct x every word of length 0..3 (sampled 4..5) over matching / non-matching "
+             "extension statements; types with openconfig-extensions notes and posix-patterns under leaf, "
+             "leaf-list, typedef, union and container/list, processed; every (struct, repeated field) with sibling "
+             "names in descending order; 0..4 identities in every order (with bases, equal names, submodules); "
+             "random histories over a sample of the built trees of the first phase",
         exhaustive=False, mismatches=mism,
         distribution=dict(hist, built=ok, rejected=err, other=other, error_kinds=kinds,
                           error_kinds_reported_at_depth_2_or_more=deep,
                           structs=len(tb.structs), keywords=len(tb.names)),
-        samples=[cases[7][:400], cases[mid][:400], cases[-5][:400], fcases[3][:400]],
-        sample_observations=[go[7][:400], go[mid][:400], go[-5][:400], fgo[3][:400]],
+        samples=[cases[7][:400], cases[mid][:400], cases[-5][:400], fcases[3][:400], hcases[5][:400]],
+        sample_observations=[go[7][:400], go[mid][:400], go[-5][:400], fgo[3][:400], hgo[5][:400]],
     )
     assumptions = ["the text handed to Modules.Parse and the tree handed to the model are renderings of the same "
                    "generated tree (one statement per line, arguments double-quoted without escapes)",
                    "top-level statements of one text carry distinct names (Modules.add's duplicate test is not modelled)",
                    "typedef dictionary side effect of build is not observed (C18)",
                    "file leg: findFile resolves dir/c03case.yang and the module name c03case to the file just written "
-                   "(nothing named c03case*.yang in the harness' working directory)"]
+                   "(nothing named c03case*.yang in the harness' working directory)",
+                   "history leg: in the model the tree is an immutable value and the later operations are functions of "
+                   "it, so 'still the mirror after the history' is the model's build result compared with the "
+                   "implementation's tree after every step; which operations exist that could write to the tree is "
+                   "outside the model -- the leg covers Process, GetModule, ToEntry, ClearEntryCache, "
+                   "MatchingExtensions, MatchingEntryExtensions and the read-only helpers of node.go/find.go, on "
+                   "module sets parsed from one text; panics and errors of those operations are ignored here "
+                   "(other properties), only the tree is observed"]
     return cov, assumptions
 
 
@@ -645,6 +805,9 @@ def replay(rep, res):
     go = lib.run_go([c])[0]
     ml = lib.run_ml([c])[0]
     toks = c.split()
+    if toks[0] == "asthist":
+        print("operations after Parse:", toks[1])
+        toks = toks[1:]
     if len(toks) > 1 and toks[1] != "-":
         print("text :")
         print(bytes.fromhex(toks[1]).decode(errors="replace"))
